@@ -1376,3 +1376,6 @@ PROPS['C01']['assumptions'] = PROPS['C01']['assumptions'] + ['a panicking payloa
 # C10 also holds for every header/element shape: the thin forms of the ptr stream and the layout stream (thin constructors)
 PTR_STREAM_C10 = dict(PTR_STREAM); PTR_STREAM_C10['ctx'] = dict(report_f3=False)
 PROPS['C10']['streams'] = PROPS['C10']['streams'] + [PTR_STREAM_C10, LAYOUT_STREAM]
+# C01 for sized, over-aligned, zero-sized, slice and trait-object payloads: the raw-pointer round trips of the ptr stream
+# recover a handle whose release returns exactly the block (the mech stream has one payload shape only)
+PROPS['C01']['streams'] = PROPS['C01']['streams'] + [PTR_STREAM_C10]
